@@ -33,7 +33,7 @@ m = {
     "hooks": {
         "guard": "UFTRACE_VERIF",
         "enable": "checks build /repo out-of-tree into /verif/.cache/build-*/ with ./configure --objdir=... --cflags=-DUFTRACE_VERIF (vf/build.py)",
-        "baseline_off_cmd": "make -C /repo -j16 >/dev/null 2>&1 && make -C /repo test",
+        "baseline_off_cmd": "/verif/tools/baseline_off.sh",
         "source_commits": json.load(open(os.path.join(V, "manifest.d", "hook_commits.json"))),
         "add_only": True,
     },
